@@ -34,6 +34,7 @@ pub struct Stats {
     pub promo_captures: u64,
     pub double_pushes: u64,
     pub regenerated_after_unmake: u64,
+    pub record_probes: u64,
     pub checks: u64,
     pub double_checks: u64,
     pub mates: u64,
@@ -56,6 +57,7 @@ impl Stats {
         self.promo_captures += o.promo_captures;
         self.double_pushes += o.double_pushes;
         self.regenerated_after_unmake += o.regenerated_after_unmake;
+        self.record_probes += o.record_probes;
         self.checks += o.checks;
         self.double_checks += o.double_checks;
         self.mates += o.mates;
@@ -75,6 +77,7 @@ impl Stats {
             ("promotion_captures", super::report::i(self.promo_captures)),
             ("double_pushes", super::report::i(self.double_pushes)),
             ("move_lists_regenerated_after_unmake", super::report::i(self.regenerated_after_unmake)),
+            ("repetition_record_probes", super::report::i(self.record_probes)),
             ("positions_in_check", super::report::i(self.checks)),
             ("double_checks", super::report::i(self.double_checks)),
             ("checkmates", super::report::i(self.mates)),
@@ -441,9 +444,46 @@ impl<'a> Walk<'a> {
                 }
             }
         }
-        for (what, v) in variants {
+        // C05 (c): the repetition record. One move is made from this position on the live board;
+        // the record must then answer "reached" for this position's own key and "not reached" for
+        // the key of every variant that is not itself an earlier position of the game - otherwise
+        // the record confuses two distinct positions.
+        let vkeys: Vec<ZKey> = variants.iter().map(|(_, v)| Board::from_fen(&v.fen()).zkey).collect();
+        let own = cur.board.zkey;
+        let first = eng::legal(&mut cur.board).first().map(|(_, ply)| *ply);
+        if let Some(ply) = first {
+            cur.board.make_move(ply);
+            cur.stats.record_probes += 1;
+            if !cur.board.position_reached(own) {
+                let p = self.pr(cur, depth_left);
+                self.sink.report(
+                    "record|own-key-forgotten".into(),
+                    format!("after a move from {} the repetition record does not answer 'reached' for that position's own key {key}", pos.fen4()),
+                    p.replay(vec![("fen_of_position", s(pos.fen()))]),
+                );
+            }
+            let here = pos.ident();
+            for ((what, v), vkey) in variants.iter().zip(vkeys.iter()) {
+                let vid = v.ident();
+                if vid == here || cur.path_idents.iter().any(|x| *x == vid) {
+                    continue;
+                }
+                cur.stats.record_probes += 1;
+                if cur.board.position_reached(*vkey) {
+                    let p = self.pr(cur, depth_left);
+                    self.sink.report(
+                        format!("record|{}", what.split(" ->").next().unwrap_or(what).split(' ').take(2).collect::<Vec<_>>().join(" ")),
+                        format!("after a move from {} the repetition record answers 'reached' for the key of the different position {} ([{what}] changed), which never occurred in the game", pos.fen4(), v.fen4()),
+                        p.replay(vec![("fen_of_position", s(pos.fen())), ("variant_fen", s(v.fen())), ("component", s(what.clone()))]),
+                    );
+                    break;
+                }
+            }
+            cur.board.unmake_move();
+        }
+        for ((what, v), vkey) in variants.into_iter().zip(vkeys.into_iter()) {
             cur.stats.perturbations += 1;
-            let vk = eng::key(&Board::from_fen(&v.fen()));
+            let vk = vkey.rce_verif_u64();
             if vk == key {
                 let p = self.pr(cur, depth_left);
                 // the signature names the component, not the position: one finding per component
